@@ -157,6 +157,13 @@ pub enum COp {
     LsInsert(u64),
     LsInvalidate(u64),
     LsStats,
+    // SemanticAdapter (the semantic half of the hybrid cache admission)
+    SaShouldUncertain,
+    SaShouldHot,
+    SaCache(u64),
+    SaStats,
+    SaClear,
+    SaSize,
     LsLifecycle,
 }
 
@@ -165,6 +172,7 @@ pub struct CWorld {
     pub vc: Arc<kyrodb_engine::VectorCache>,
     pub qc: Arc<kyrodb_engine::QueryHashCache>,
     pub ls: Arc<kyrodb_engine::cache_strategy::LearnedCacheStrategy>,
+    pub sa: Arc<kyrodb_engine::semantic_adapter::SemanticAdapter>,
 }
 
 fn cbuild() -> CWorld {
@@ -178,7 +186,11 @@ fn cbuild() -> CWorld {
     let ls = Arc::new(kyrodb_engine::cache_strategy::LearnedCacheStrategy::new(2, kyrodb_engine::learned_cache::LearnedCachePredictor::new(2).unwrap()));
     use kyrodb_engine::cache_strategy::CacheStrategy;
     ls.insert_cached(cv(1));
-    CWorld { ht, vc, qc, ls }
+    // non-empty embedding history, so that an uncertain frequency score takes the similarity scan
+    let sa = Arc::new(kyrodb_engine::semantic_adapter::SemanticAdapter::new());
+    let _ = sa.cache_embedding(1, vec![1.0, 0.0]);
+    let _ = sa.cache_embedding(2, vec![0.0, 1.0]);
+    CWorld { ht, vc, qc, ls, sa }
 }
 
 fn cv(id: u64) -> kyrodb_engine::vector_cache::CachedVector {
@@ -270,6 +282,22 @@ fn run_cop(w: &CWorld, op: &COp) {
         COp::LsLifecycle => {
             let _ = w.ls.lifecycle_stats();
         }
+        COp::SaShouldUncertain => {
+            let _ = w.sa.should_cache(0.4, &[0.6, 0.8], 0.5);
+        }
+        COp::SaShouldHot => {
+            let _ = w.sa.should_cache(0.95, &[0.6, 0.8], 0.5);
+        }
+        COp::SaCache(id) => {
+            let _ = w.sa.cache_embedding(*id, vec![*id as f32, 1.0]);
+        }
+        COp::SaStats => {
+            let _ = w.sa.stats();
+        }
+        COp::SaClear => w.sa.clear_cache(),
+        COp::SaSize => {
+            let _ = w.sa.cache_size();
+        }
     }
 }
 
@@ -279,6 +307,7 @@ pub fn component_groups() -> Vec<(&'static str, Vec<COp>)> {
         ("VectorCache", vec![COp::VcGet(1), COp::VcInsert(2), COp::VcInsert(3), COp::VcRemove(1), COp::VcStats, COp::VcClear]),
         ("QueryHashCache", vec![COp::QcGet, COp::QcInsert, COp::QcInvalidateDoc, COp::QcInvalidateForInsert, COp::QcClear, COp::QcStats]),
         ("LearnedCacheStrategy", vec![COp::LsGet(1), COp::LsShould(2), COp::LsInsert(2), COp::LsInvalidate(1), COp::LsStats, COp::LsLifecycle]),
+        ("SemanticAdapter", vec![COp::SaShouldUncertain, COp::SaShouldHot, COp::SaCache(7), COp::SaStats, COp::SaClear, COp::SaSize]),
     ]
 }
 
@@ -516,7 +545,7 @@ pub fn run(tier: &str, replay: Option<&str>) -> i32 {
     ev.set("traces_validated_against_impl", tot["executions"]);
     ev.set("evaluations", tot["executions"]);
     ev.set("distinct_nontrivial", tot["programs"]);
-    ev.set("rule", format!("(1) every unordered pair of the 24-operation catalogue (incl. delete-by-filter and ids_for_metadata_filter through the index path and through the reference-matcher scan fallback, delete by closure predicate) x 4 initial states (absent / cold-only / cached / in recent-write tier), plus writer pairs and triples on a persistent engine whose index is full with a tombstone (compaction path, with and without persistence) and on one that snapshots after every write (interval 1), as real threads on a fresh TieredEngine, every schedule with <= {bound} preemptions at lock-acquisition granularity under writer-preferring RwLock semantics; (2) every multiset of three operations of the HotTier / VectorCache / QueryHashCache / LearnedCacheStrategy catalogues, <= 2 preemptions; (3) engine-level triples derived from opposite acquisition orders in the single-operation lock traces plus every writer of the read-held lock. Verdict per execution: some thread unfinished and none enabled = deadlock. states/transitions = scheduling points executed (stateless search: states are not stored)"));
+    ev.set("rule", format!("(1) every unordered pair of the 24-operation catalogue (incl. delete-by-filter and ids_for_metadata_filter through the index path and through the reference-matcher scan fallback, delete by closure predicate) x 4 initial states (absent / cold-only / cached / in recent-write tier), plus writer pairs and triples on a persistent engine whose index is full with a tombstone (compaction path, with and without persistence) and on one that snapshots after every write (interval 1), as real threads on a fresh TieredEngine, every schedule with <= {bound} preemptions at lock-acquisition granularity under writer-preferring RwLock semantics; (2) every multiset of three operations of the HotTier / VectorCache / QueryHashCache / LearnedCacheStrategy / SemanticAdapter catalogues, <= 2 preemptions; (3) engine-level triples derived from opposite acquisition orders in the single-operation lock traces plus every writer of the read-held lock. Verdict per execution: some thread unfinished and none enabled = deadlock. states/transitions = scheduling points executed (stateless search: states are not stored)"));
     ev.set("samples", json!([{"pair":["insert(1,w1)","flush_hot_tier(force)"],"init":"Hot"},{"component_triple":["HtGet(1)","HtInsert(2)","HtDelete(1)"]}]));
     ev.set("exhaustive", tot["capped"] == 0);
     ev.set("programs", tot["programs"]);
